@@ -2437,7 +2437,8 @@ column_41			(vbi_page *		pg,
 	black0 = TRUE;
 	cont39 = TRUE;
 
-	for (row = 1; row <= 24; ++row) {
+	/* Rows 1 ... 23, row 24 is the navigation bar below. */
+	for (row = 1; row <= 23; ++row) {
 		if (0x0020 != acp[0].unicode
 		    || (VBI_BLACK != acp[0].background
 			&& 32 != acp[0].background)) {
@@ -2458,7 +2459,7 @@ column_41			(vbi_page *		pg,
 	acp = pg->text + 41;
 
 	if (!black0 && cont39) {
-		for (row = 1; row <= 24; ++row) {
+		for (row = 1; row <= 23; ++row) {
 			acp[40] = acp[39];
 			column_41_size (&acp[40]);
 
@@ -2477,13 +2478,15 @@ column_41			(vbi_page *		pg,
 		ac.background	= ext->background_clut + VBI_BLACK;
 		ac.opacity	= pg->page_opacity[1];
 
-		for (row = 1; row <= 24; ++row) {
+		for (row = 1; row <= 23; ++row) {
 			acp[40] = ac;
 			acp += 41;
 		}
 	}
 
-	/* Navigation bar. */
+	/* Navigation bar. acp points to row 24 now; when the loops
+	   above ran up to row 24 this was text[25 * 41 + 40], past the
+	   end of pg->text[] in pg->color_map[]. */
 
 	acp[40] = acp[39];
 	acp[40].unicode = 0x0020;
